@@ -70,6 +70,8 @@ OpClauses(e) ==
               When(~C18_WellFormed(o), "C18_WellFormed")
          \cup When(cleaned /\ ~C18_Bounds(o, e.obs.np, maxP, maxA), "C18_Bounds")
          \cup When(cleaned /\ ~C18_CleanAfterCleanup(o), "C18_CleanAfterCleanup")
+    \* a flush that met a corrupt or foreign file behaves as if the file were absent: it succeeds and replaces it
+    ELSE IF e.ev = "Flush" /\ e.rawpre.kind = "corrupt" /\ (e.res # "Ok" \/ e.raw.kind # "cache") THEN {"C18_CorruptIgnored"}
     ELSE IF e.ev = "Craft" THEN
          When(e.res = "Panic" \/ (e.res = "Ok" /\ ~e.wf), "C18_WellFormed")
     ELSE IF e.ev = "Flush" /\ e.res = "Ok" /\ e.raw.kind = "cache" THEN
